@@ -93,39 +93,19 @@ func CheckC04(spec Spec, o *Obs, sim *Sim) error {
 			}
 		}
 	}
-	// (b) lifecycle projection per incarnation equals the model's: which incarnations exist,
-	// which were Started, which ended with Stopped
-	want := map[int]*st{}
-	wantMax := 0
-	for _, x := range sim.Exp {
-		s := want[x.Inc]
-		if s == nil {
-			s = &st{}
-			want[x.Inc] = s
-		}
-		if x.Inc > wantMax {
-			wantMax = x.Inc
-		}
-		switch x.Kind {
-		case "Initialized":
-			s.init = true
-		case "Started":
-			s.started = true
-		case "Stopped":
-			s.stopped = true
-		}
-	}
-	if maxInc != wantMax {
-		return fmt.Errorf("%d incarnations were produced, the model expects %d; log: %s; expected: %s", maxInc, wantMax, fmtLog(rs), fmtExp(sim.Exp))
-	}
-	for inc, ws := range want {
+	// (b) an incarnation that ended - it was replaced by a later one, or the actor is gone at
+	// the end of the history - was told Stopped (exactly once, see (a)); a live one was not
+	for inc := 1; inc <= maxInc; inc++ {
 		g := incs[inc]
 		if g == nil {
-			return fmt.Errorf("incarnation %d received nothing; expected: %s", inc, fmtExp(sim.Exp))
+			return fmt.Errorf("incarnation %d was produced but received nothing; log: %s", inc, fmtLog(rs))
 		}
-		if *g != *ws {
-			return fmt.Errorf("incarnation %d: got Initialized=%v Started=%v Stopped=%v, expected %v %v %v (an ended incarnation gets Stopped exactly once, a live one none); log: %s; expected: %s",
-				inc, g.init, g.started, g.stopped, ws.init, ws.started, ws.stopped, fmtLog(rs), fmtExp(sim.Exp))
+		ended := inc < maxInc || o.FinalRegNil
+		if ended && !g.stopped {
+			return fmt.Errorf("incarnation %d ended (replaced=%v, actor unregistered at the end=%v) without being told Stopped; log: %s", inc, inc < maxInc, o.FinalRegNil, fmtLog(rs))
+		}
+		if !ended && g.stopped {
+			return fmt.Errorf("incarnation %d was told Stopped but the actor is still registered and it was not replaced; log: %s", inc, fmtLog(rs))
 		}
 	}
 	// (c) messages sent between registration and Started are retained and delivered, once, after Started
@@ -308,6 +288,12 @@ func CheckC06(spec Spec, o *Obs, sim *Sim) error {
 			stopped++
 			n = 0
 		}
+	}
+	// The remaining expectations come from the reference model; they are only meaningful when
+	// the actor followed the model everywhere else (a deviation in what was delivered is the
+	// business of C04/C05/C07, and makes the predicted deaths meaningless)
+	if sameKinds(o.recv(), sim.Exp) != nil || o.Diverged != "" {
+		return nil
 	}
 	if maxEv != sim.MaxExceeded {
 		return fmt.Errorf("%d ActorMaxRestartsExceededEvent(s), the model expects %d", maxEv, sim.MaxExceeded)
@@ -549,6 +535,21 @@ func CheckC07(spec Spec, o *Obs, sim *Sim, orphansExpectedDone bool) error {
 // CheckC13: every delivery goes through the whole chain, in order, with a consistent view.
 func CheckC13(spec Spec, o *Obs, sim *Sim) error {
 	k := spec.Chain
+	// The bracket structure below reads a totally ordered log; it is only meaningful while one
+	// delivery happens at a time and nothing is delivered to a stopped incarnation (C02/C04):
+	// if that does not hold on this observation the case is not judged here.
+	stoppedInc := map[int]bool{}
+	for _, e := range o.recv() {
+		if stoppedInc[e.Inc] {
+			return nil
+		}
+		if e.Kind == "Stopped" {
+			stoppedInc[e.Inc] = true
+		}
+	}
+	if o.Diverged != "" {
+		return nil
+	}
 	var seq []Entry
 	for _, e := range o.Log {
 		if e.Who == "R" || (len(e.Who) > 1 && e.Who[0] == 'M') {
@@ -572,7 +573,10 @@ func CheckC13(spec Spec, o *Obs, sim *Sim) error {
 		r := seq[i]
 		i++
 		for m := k - 1; m >= 0; m-- {
-			if i >= len(seq) || seq[i].Who != fmt.Sprintf("M%d", m) || seq[i].Phase == "in" {
+			if i >= len(seq) {
+				return nil // the log snapshot ends inside a delivery (only possible when a stopped actor still runs)
+			}
+			if seq[i].Who != fmt.Sprintf("M%d", m) || seq[i].Phase == "in" {
 				return fmt.Errorf("delivery #%d (%s): expected middleware %d to return, got %v; sequence around: %s", deliveries, r, m, at(seq, i), fmtLog(window(seq, start)))
 			}
 			i++
